@@ -7,6 +7,11 @@
 (*                  the three sources x the spellings of Vocab).              *)
 (*   Mode "unk"   : unknown names and ill-typed siblings next to an option.   *)
 (*   Mode "pair"  : the two options of a conflict given by different sources. *)
+(*   Mode "conf"  : the option that names the file itself (--conf) given on   *)
+(*                  the command line NEXT TO other switches and also in the   *)
+(*                  file / the environment; and only in the environment.      *)
+(*   Mode "lit"   : untyped options whose text holds characters a parser      *)
+(*                  could take apart (LiteralWords), in every source.         *)
 (*   Mode "table" : every assignment of default / non-default to the options  *)
 (*                  of the implication table with at most MaxWeight           *)
 (*                  non-default ones (MaxWeight = all: the full product).     *)
@@ -89,6 +94,43 @@ PairCases ==
        cli  |-> CliRows(x[1][1], x[6][1]) \cup CliRows(x[1][2], x[6][2])] :
         x \in UNION { {pr} \X Tri \X Tri \X Tri \X Tri \X (CliChoice(pr[1]) \X CliChoice(pr[2])) : pr \in ConflictPairs } }
 
+(* ---- the option that names the configuration file ---- *)
+(* Mode "conf": `conf` is an option like any other: the command line (--conf) *)
+(* beats INSIGHTS_CONF beats a conf= key of the file.  The command line holds *)
+(* it next to 0, 1 or 2 other switches (every switch of the table once as a   *)
+(* companion), the file and the environment give it or not.  ConfArg stands   *)
+(* for the path of the generated file (the driver substitutes it).  Without   *)
+(* --conf the file read is the built-in default path (fstate "missing").      *)
+ConfArg    == "@CONF"
+ConfRow    == [name |-> "conf", has |-> TRUE, arg |-> ConfArg]
+Companions == {n \in Focus : CliKind(n) # "none"}
+Form1(n)   == LET c == CHOOSE c \in CliForms(n) : TRUE IN [name |-> n, has |-> c.has, arg |-> c.arg]
+TwoComp    == {"retries", "quiet", "no_upload", "keep_archive"} \cap Companions
+CompSets   == {{}} \cup {{Form1(n)} : n \in Companions} \cup {{Form1(a), Form1(b)} : a, b \in TwoComp}
+ConfCases ==
+    IF "conf" \notin OptNames THEN {} ELSE
+    { [fstate |-> "ok", file |-> FileOf("conf", x[1]), env |-> FileOf("conf", x[2]), cli |-> {ConfRow} \cup x[3]] :
+        x \in (({Absent} \cup FileWords("conf")) \X ({Absent} \cup EnvWords("conf")) \X {{}})
+              \cup ((IF Big THEN {Absent} \cup FileWords("conf") ELSE {Absent, "alpha"})
+                    \X (IF Big THEN {Absent} \cup EnvWords("conf") ELSE {Absent, "beta"}) \X CompSets) }
+    \cup { [fstate |-> "missing", file |-> {}, env |-> FileOf("conf", w), cli |-> cs] :
+             w \in EnvWords("conf"), cs \in {{}} \cup {{Form1(n)} : n \in TwoComp} }
+
+(* ---- literal texts ---- *)
+(* Mode "lit": every option that is not typed by its default x every text of  *)
+(* LiteralWords, given by the file (next to a typed sibling), by the          *)
+(* environment (the file gives a plain word), or by the switch if it takes an *)
+(* argument (the file gives the same text).                                   *)
+LitOpts == {n \in Focus : TypeOf(n) = "str"}
+Sibling == IF "retries" \in OptNames THEN {[name |-> "retries", text |-> "3"]} ELSE {}
+LitPlaces(n) == {"file", "env"} \cup (IF CliKind(n) \in {"store", "optarg"} THEN {"cli"} ELSE {})
+LitCases ==
+    { [fstate |-> "ok",
+       file |-> Sibling \cup {[name |-> x[1], text |-> IF x[3] = "env" THEN "alpha" ELSE x[2]]},
+       env  |-> IF x[3] = "env" THEN {[name |-> x[1], text |-> x[2]]} ELSE {},
+       cli  |-> IF x[3] = "cli" THEN {[name |-> x[1], has |-> TRUE, arg |-> x[2]]} ELSE {}] :
+        x \in UNION { {n} \X LiteralWords \X LitPlaces(n) : n \in LitOpts } }
+
 (* ---- the implication / validation table ---- *)
 ExtOpts   == TableOpts \cup ({"analyze_container", "analyze_file", "use_atomic", "enable_schedule", "disable_schedule",
                               "payload", "content_type", "compressor", "module", "app", "net_debug", "legacy_upload",
@@ -135,6 +177,8 @@ Pick ==
     /\ CASE Mode = "prec"   -> \E l \in PrecCases : Start(l, {})
          [] Mode = "unk"    -> \E l \in UnkCases : Start(l, {})
          [] Mode = "pair"   -> \E l \in PairCases : Start(l, {})
+         [] Mode = "conf"   -> \E l \in ConfCases : Start(l, {})
+         [] Mode = "lit"    -> \E l \in LitCases : Start(l, {})
          [] Mode = "table"  -> \E f \in EffCases(TableOpts) : Start(LayOfEff(f), EffSet(f))
          [] Mode = "ext"    -> \E f \in EffCases(ExtOpts) : Start(LayOfEff(f), EffSet(f))
          [] Mode = "rtable" -> \E A \in {RandomSubset(RandomElement(0..Cardinality(TableOpts)), TableOpts)} :
